@@ -9,6 +9,10 @@ verus! {
 pub assume_specification<T: Default>[ core::mem::take::<T> ](dest: &mut T) -> (r: T)
     ensures r == *old(dest), T::default.ensures((), *final(dest));
 
+pub assume_specification<T, F: FnOnce() -> Option<T>>[ Option::<T>::or_else ](o: Option<T>, f: F) -> (r: Option<T>)
+    requires o is None ==> call_requires(f, ()),
+    ensures o is Some ==> r == o, o is None ==> call_ensures(f, (), r);
+
 pub assume_specification<T: Ord>[ core::cmp::min::<T> ](a: T, b: T) -> (r: T)
     ensures vstd::std_specs::cmp::OrdSpec::cmp_spec(&a, &b) == core::cmp::Ordering::Greater ==> r == b,
             vstd::std_specs::cmp::OrdSpec::cmp_spec(&a, &b) != core::cmp::Ordering::Greater ==> r == a;
@@ -228,6 +232,46 @@ pub fn shim_btreeset_extend<T: Ord>(s: &mut BTreeSet<T>, other: BTreeSet<T>)
     ensures crate::spec::actor_ok::<T>() ==> final(s)@ == old(s)@.union(other@),
 {
     s.extend(other)
+}
+/// N2 shim for `MAP.iter().filter(F).map(|(k, _)| k).copied().collect::<Vec<_>>()`: the keys whose entry satisfies F
+#[verifier::external_body]
+pub fn shim_btreemap_iter_filter_keys_collect<K: Ord + Copy, V, F: FnMut(&(&K, &V)) -> bool>(m: &BTreeMap<K, V>, Ghost(p): Ghost<spec_fn(K, V) -> bool>, f: F) -> (r: Vec<K>)
+    requires
+        forall|k: K| m@.contains_key(k) ==> call_requires(f, (&(&k, &#[trigger] m@[k]),)),
+        forall|k: K, b: bool| m@.contains_key(k) && #[trigger] call_ensures(f, (&(&k, &m@[k]),), b) ==> b == p(k, m@[k]),
+    ensures
+        forall|k: K| #[trigger] r@.contains(k) <==> m@.contains_key(k) && p(k, m@[k]),
+{
+    m.iter().filter(f).map(|(k, _)| k).copied().collect::<Vec<_>>()
+}
+/// N2 shim for `SET.iter().copied().filter_map(F).collect()` into a BTreeMap, F key-preserving
+#[verifier::external_body]
+pub fn shim_btreeset_copied_filter_map_collect<K: Ord + Copy, V, F: FnMut(K) -> Option<(K, V)>>(s: &BTreeSet<K>, f: F) -> (r: BTreeMap<K, V>)
+    requires
+        forall|k: K| #[trigger] s@.contains(k) ==> call_requires(f, (k,)),
+        forall|k: K, o: Option<(K, V)>| s@.contains(k) && #[trigger] call_ensures(f, (k,), o) ==> (o matches Some(q) ==> q.0 == k),
+    ensures
+        forall|k: K| #[trigger] r@.contains_key(k) ==> s@.contains(k) && call_ensures(f, (k,), Some((k, r@[k]))),
+        forall|k: K| #[trigger] s@.contains(k) && !r@.contains_key(k) ==> call_ensures(f, (k,), None),
+{
+    s.iter().copied().filter_map(f).collect()
+}
+/// N2 shim for `SET.iter().all(F)`
+#[verifier::external_body]
+pub fn shim_btreeset_iter_all<K: Ord, F: FnMut(&K) -> bool>(s: &BTreeSet<K>, Ghost(p): Ghost<spec_fn(K) -> bool>, f: F) -> (r: bool)
+    requires
+        forall|k: K| #[trigger] s@.contains(k) ==> call_requires(f, (&k,)),
+        forall|k: K, b: bool| s@.contains(k) && #[trigger] call_ensures(f, (&k,), b) ==> b == p(k),
+    ensures r == (forall|k: K| #[trigger] s@.contains(k) ==> p(k)),
+{
+    s.iter().all(f)
+}
+/// N2 shim for `MAP.keys().copied().collect()` into a BTreeSet
+#[verifier::external_body]
+pub fn shim_btreemap_keys_copied_collect<K: Ord + Copy, V>(m: &BTreeMap<K, V>) -> (r: BTreeSet<K>)
+    ensures r@ == m@.dom(),
+{
+    m.keys().copied().collect()
 }
 /// `SET.append(&mut OTHER)` for BTreeSets
 #[verifier::external_body]
